@@ -24,8 +24,10 @@ Class(line, bad) ==
    THEN "schema_error_text_panics_on_unencodable_value"
    ELSE
    IF bad = {"returns_normally"} /\ "recursive_schema_default" \in (LET fs == IF "feats" \in DOMAIN line.c THEN line.c.feats ELSE line.c.feat IN {fs[i] : i \in DOMAIN fs})
-      /\ "validate_request" \in DOMAIN line.obs /\ line.obs["validate_request"] = "crash"
-      /\ \A s \in DOMAIN line.obs : line.obs[s] \notin {"panic", "hang"}
+      (* the overflow is observed as the death of the process, or - on a machine so loaded that filling the maximal stack *)
+      (* takes longer than the watchdog allows - as the watchdog's "hang"; in both the call never returns               *)
+      /\ "validate_request" \in DOMAIN line.obs /\ line.obs["validate_request"] \in {"crash", "hang"}
+      /\ \A s \in DOMAIN line.obs : s # "validate_request" => line.obs[s] \notin {"panic", "hang", "crash"}
    THEN "recursive_default_injection_overflows"
    ELSE "none"
 =============================================================================
